@@ -251,6 +251,8 @@ def lexer_rules(repo):
         if em:
             if kind == ".ident":
                 err = ".none"  # ID_TOO_LONG for identifiers of >= 4001 characters: not a position matter
+            elif kind == ".str" and re.search(r"if\s*\(\s*static_cast<size_t>\(utap_leng\)\s*>=\s*MAXLEN\s*\)\s*\{\s*utap_error\(STRING_TOO_LONG\);\s*\}", act) and len(em) == 1:
+                err = ".none"  # STRING_TOO_LONG for literals of >= 4001 characters: likewise
             elif kind == ".num":
                 err = ".overflow %s" % em[0]
             elif re.search(r"if\s*\(\s*syntax\s*&\s*syntax_t::OLD\s*\)\s*\{\s*return", act):
@@ -259,7 +261,7 @@ def lexer_rules(repo):
                 raise TranslateError("lexer.l: rule %r reports an error under an unrecognised condition" % pat)
             else:
                 err = ".always %s" % em[0]
-            if kind != ".ident" and not em[0].startswith('"'):
+            if err != ".none" and not em[0].startswith('"'):
                 raise TranslateError("lexer.l: rule %r: error message is not a literal" % pat)
         rules.append((mode, kind, littext, nl, begin, err))
     if mode != "initial":
